@@ -241,6 +241,7 @@ type hostScript struct {
 	Probe    string `json:"probe"`    // "", "true", "false" (any letter case)
 	Preserve string `json:"preserve"` // "", "true", "false" (any letter case)
 	ViaEnv   bool   `json:"via_env"`  // configured through $ENABLE_KUBERNETES_PROBE / $PRESERVE_HOST instead of the flags
+	Path     string `json:"path"`     // request target; not necessarily in canonical form
 	ALPN     string `json:"alpn"`
 	UA       string `json:"ua"`
 }
@@ -253,7 +254,8 @@ func TestVerifWiringC15(t *testing.T) {
 		Gen: func(t *rapid.T) hostScript {
 			spell := []string{"", "true", "false", "True", "False", "TRUE", "FALSE"}
 			return hostScript{Probe: rapid.SampledFrom(spell).Draw(t, "probe"), Preserve: rapid.SampledFrom(spell).Draw(t, "preserve"), ViaEnv: rapid.Bool().Draw(t, "env"),
-				ALPN: rapid.SampledFrom([]string{"h2", "http/1.1"}).Draw(t, "alpn"), UA: rapid.SampledFrom([]string{"kube-probe/1.29", "curl/8", "x kube-probe/1"}).Draw(t, "ua")}
+				ALPN: rapid.SampledFrom([]string{"h2", "http/1.1"}).Draw(t, "alpn"), UA: rapid.SampledFrom([]string{"kube-probe/1.29", "curl/8", "x kube-probe/1"}).Draw(t, "ua"),
+				Path: rapid.SampledFrom([]string{"/p", "/p", "//x", "/a/./b", "/a/../b", "/x//", "/healthz/"}).Draw(t, "path")}
 		},
 		Exec: func(s hostScript) *vstat.Violation {
 			var ex rig.Exchange
@@ -284,7 +286,7 @@ func TestVerifWiringC15(t *testing.T) {
 					return
 				}
 				defer cc.Close()
-				ex = cc.Do(rig.ReqSpec{Method: "GET", Path: "/p", Authority: "client.example", Headers: [][2]string{{"User-Agent", s.UA}}})
+				ex = cc.Do(rig.ReqSpec{Method: "GET", Path: s.Path, Authority: "client.example", Headers: [][2]string{{"User-Agent", s.UA}}})
 				rig.Wait()
 				reqs = p.Backend.Requests()
 			})
@@ -294,6 +296,9 @@ func TestVerifWiringC15(t *testing.T) {
 			}
 			probeOn := strings.ToLower(s.Probe) != "false" // default true
 			wantLocal := probeOn && strings.HasPrefix(s.UA, "kube-probe/")
+			if !wantLocal && len(reqs) == 1 && reqs[0].RequestURI != s.Path {
+				return vstat.Violf("wiring:handler|path-altered", "%+v: backend saw request target %q", s, reqs[0].RequestURI)
+			}
 			if wantLocal != (len(reqs) == 0) || wantLocal != (string(ex.Body) == "OK") {
 				return vstat.Violf("wiring:enable-kubernetes-probe|wrong-routing", "%+v: forwarded=%d body=%q", s, len(reqs), ex.Body)
 			}
@@ -309,7 +314,7 @@ func TestVerifWiringC15(t *testing.T) {
 					return vstat.Violf("wiring:xfp|not-https", "%+v: X-Forwarded-Proto %q", s, v)
 				}
 			}
-			colC15.Case(fmt.Sprintf("%+v", s), true, s, "probe:"+strings.ToLower(s.Probe), "preserve:"+strings.ToLower(s.Preserve), fmt.Sprintf("via-env:%v", s.ViaEnv))
+			colC15.Case(fmt.Sprintf("%+v", s), true, s, "probe:"+strings.ToLower(s.Probe), "preserve:"+strings.ToLower(s.Preserve), fmt.Sprintf("via-env:%v", s.ViaEnv), fmt.Sprintf("canonical-path:%v", s.Path == "/p" || s.Path == "/healthz/"))
 			return nil
 		}})
 }
@@ -388,9 +393,10 @@ func TestVerifWiringC08(t *testing.T) {
 
 type certScript struct {
 	SNI    string `json:"sni"`   // "" = client sends no server_name
-	Style  string `json:"style"` // inplace, rename
+	Style  string `json:"style"` // inplace, rename, k8s-swap (symlinked secret volume, directory swapped)
 	MaxTLS uint16 `json:"max_tls"`
 	ALPN   string `json:"alpn"`
+	ViaEnv bool   `json:"via_env"` // paths through $CERT_FILENAME / $CERTKEY_FILENAME
 }
 
 var colC14 = vstat.New("C14", "c14.wiring")
@@ -399,7 +405,7 @@ func TestVerifWiringC14(t *testing.T) {
 	pairs := rig.CertPairsPEM(3)
 	vstat.Run(t, vstat.Spec[certScript]{Col: colC14, Quick: 40, Thorough: 400,
 		Gen: func(t *rapid.T) certScript {
-			return certScript{SNI: rapid.SampledFrom([]string{"", "", "verif.test", "other.example"}).Draw(t, "sni"), Style: rapid.SampledFrom([]string{"inplace", "rename"}).Draw(t, "style"),
+			return certScript{SNI: rapid.SampledFrom([]string{"", "", "verif.test", "other.example"}).Draw(t, "sni"), Style: rapid.SampledFrom([]string{"inplace", "rename", "k8s-swap", "k8s-swap"}).Draw(t, "style"), ViaEnv: rapid.Bool().Draw(t, "env"),
 				MaxTLS: rapid.SampledFrom([]uint16{0x0303, 0x0304}).Draw(t, "tls"), ALPN: rapid.SampledFrom([]string{"h2", "http/1.1", ""}).Draw(t, "alpn")}
 		},
 		Exec: func(s certScript) *vstat.Violation {
@@ -410,15 +416,49 @@ func TestVerifWiringC14(t *testing.T) {
 			}
 			defer os.RemoveAll(dir)
 			cp, kp := filepath.Join(dir, "tls.crt"), filepath.Join(dir, "tls.key")
-			os.WriteFile(cp, pairs[0][0], 0o644)
-			os.WriteFile(kp, pairs[0][1], 0o600)
+			gen := 0
+			// Kubernetes secret volume: tls.crt -> ..data/tls.crt, ..data -> ..<timestamp>; an update creates a new
+			// timestamped directory, swaps the ..data symlink atomically and removes the old directory
+			swap := func(c, k []byte) {
+				gen++
+				nd := filepath.Join(dir, fmt.Sprintf("..2026_01_01_00_00_%02d.%d", gen, gen))
+				os.Mkdir(nd, 0o755)
+				os.WriteFile(filepath.Join(nd, "tls.crt"), c, 0o644)
+				os.WriteFile(filepath.Join(nd, "tls.key"), k, 0o600)
+				old, _ := os.Readlink(filepath.Join(dir, "..data"))
+				os.Remove(filepath.Join(dir, "..data_tmp"))
+				os.Symlink(filepath.Base(nd), filepath.Join(dir, "..data_tmp"))
+				os.Rename(filepath.Join(dir, "..data_tmp"), filepath.Join(dir, "..data"))
+				if old != "" {
+					os.RemoveAll(filepath.Join(dir, old))
+				}
+			}
+			if s.Style == "k8s-swap" {
+				swap(pairs[0][0], pairs[0][1])
+				os.Symlink(filepath.Join("..data", "tls.crt"), cp)
+				os.Symlink(filepath.Join("..data", "tls.key"), kp)
+			} else {
+				os.WriteFile(cp, pairs[0][0], 0o644)
+				os.WriteFile(kp, pairs[0][1], 0o600)
+			}
 			for _, l := range []interface{ SetOutput(io.Writer) }{ProxyServerLog, HTTPServerLog, PrometheusLog, ReverseProxyLog, FingerprintLog, CertWatcherLog, DefaultLog} {
 				l.SetOutput(io.Discard)
 			}
 			flag.CommandLine = flag.NewFlagSet("fingerproxy", flag.ContinueOnError)
 			flag.CommandLine.SetOutput(io.Discard)
 			initFlags()
-			flag.CommandLine.Parse([]string{"-cert-filename", cp, "-certkey-filename", kp})
+			if s.ViaEnv {
+				os.Setenv("CERT_FILENAME", cp)
+				os.Setenv("CERTKEY_FILENAME", kp)
+				flag.CommandLine = flag.NewFlagSet("fingerproxy", flag.ContinueOnError)
+				flag.CommandLine.SetOutput(io.Discard)
+				initFlags()
+				flag.CommandLine.Parse(nil)
+				os.Unsetenv("CERT_FILENAME")
+				os.Unsetenv("CERTKEY_FILENAME")
+			} else {
+				flag.CommandLine.Parse([]string{"-cert-filename", cp, "-certkey-filename", kp})
+			}
 			cw := initCertWatcher()
 			cfg := defaultTLSConfig(cw)
 			ctx, cancel := context.WithCancel(context.Background())
@@ -458,8 +498,12 @@ func TestVerifWiringC14(t *testing.T) {
 					os.WriteFile(p, b, 0o644)
 				}
 			}
-			write(cp, pairs[1][0])
-			write(kp, pairs[1][1])
+			if s.Style == "k8s-swap" {
+				swap(pairs[1][0], pairs[1][1])
+			} else {
+				write(cp, pairs[1][0])
+				write(kp, pairs[1][1])
+			}
 			t0 := time.Now()
 			var ser int64
 			for time.Since(t0) < 3*time.Second {
